@@ -117,12 +117,12 @@ def make_repl(rng, search, mode, coeffs, tag="r"):
     return st
 
 
-def make_problem(rng, k, repl_mode=None, flavor="mixed", coeffs=None, pattern=None, with_terms=True, cif_like=False, big=None):
+def make_problem(rng, k, repl_mode=None, flavor="mixed", coeffs=None, pattern=None, with_terms=True, cif_like=False, big=None, cellkind=None):
     """a planted structure with bystanders, pre-existing terms, a search pattern and a replacement pattern"""
     c = None
     tries = 0
     while c is None or not c["planted"]:
-        c = FG.make_case(rng, k + 1000 * tries, flavor=flavor, pattern=pattern, big=big)
+        c = FG.make_case(rng, k + 1000 * tries, flavor=flavor, pattern=pattern, big=big, cellkind=cellkind)
         tries += 1
         if tries > 50:
             return None
